@@ -204,6 +204,13 @@ def _map(tasks):
 def _report(ctx, tasks, results, label):
     skipped = 0
     sk = ctx.sections.setdefault('refused_builds', {})
+    # transformations that already fail when applied alone: a failing chain containing one of them is filed under it
+    alone = set()
+    for (entry, via, cls, trs, seed), problems in zip(tasks, results):
+        if len(trs) == 1:
+            for aspect, what in problems:
+                if aspect != 'skipped':
+                    alone.add((aspect, str(trs[0][0])))
     for (entry, via, cls, trs, seed), problems in zip(tasks, results):
         tkey = '+'.join(str(t[0]) for t in trs)
         ctx.case((label, entry['id'], via, cls, tkey), nontrivial=(entry['nvars'] or 1) > 0)
@@ -213,7 +220,8 @@ def _report(ctx, tasks, results, label):
                 sk['{} {} {}'.format(via, cls, ' '.join(map(str, entry['argv'])))] = what
                 continue
             if trs:
-                key = '{}:transformation:{}'.format(aspect, tkey)
+                culprit = [str(t[0]) for t in trs if (aspect, str(t[0])) in alone]
+                key = '{}:transformation:{}'.format(aspect, culprit[0] if culprit else tkey)
             else:
                 key = '{}:{}:{}:{}'.format(aspect, entry['family'], via, cls)
             ctx.violation(key, '{} {} {} {} {}: {}'.format(via, cls, ' '.join(map(str, entry['argv'])),
@@ -271,12 +279,13 @@ def bounded_transformations(ctx):
     for e in bases:
         for ch in chains:
             tasks.append((e, 'cli', 'cnf', [list(t) for t in ch], ctx.seed))
-    # a base whose top variables occur in no clause (random 3-CNF with 9 variables and one clause)
-    sparse = [e for e in xf.small_entries(False) if e['id'] == 'randkcnf-3-9-1']
-    assert sparse
-    for ch in chains:
-        if len(ch) == 1 or (ch[0] in [t[0] for t in light1] and ch[1] in [t[0] for t in light2]):
-            tasks.append((sparse[0], 'cli', 'cnf', [list(t) for t in ch], ctx.seed))
+    # bases read from DIMACS files: variables that occur in no clause, an empty clause, no clause at all
+    sparse = [e for e in xf.small_entries(False) if e['family'] == 'dimacs']
+    assert len(sparse) == 4
+    for e in sparse:
+        for ch in chains:
+            if len(ch) == 1 or (ch[0] in [t[0] for t in light1] and ch[1] in [t[0] for t in light2]):
+                tasks.append((e, 'cli', 'cnf', [list(t) for t in ch], ctx.seed))
     res = _map(tasks)
     _report(ctx, tasks, res, 'chain')
     ctx.bounds['transformations'] = 'cnfgen -T chains of length 1 and 2 over {} on the bases {}: {} chains'.format(
